@@ -453,16 +453,20 @@ class Prop(Check):
     LEAN_MODULE = "TextxVerif.Props.C26"
     THEOREMS = [
         "Reg.C26_refines",
+        "Reg.C26_lookup_iff",
         "Reg.C26_dup_refused",
         "Reg.C26_lookup_any_case",
+        "Reg.C26_gen_lookup_iff",
         "Reg.C26_gen_dup_refused",
-        "Reg.C26_gen_lookup_any_case",
         "Reg.C26_entrypoints_survive_clear",
         "Reg.C26_gen_entrypoints_survive_clear",
         "Reg.C26_for_file_exact",
         "Reg.C26_language_for_file_unique",
         "Reg.C26_cache_hit",
         "Reg.C26_cache_fresh",
+        "Reg.C26_cache_instance",
+        "Reg.C26_cache_not_stale",
+        "Reg.C26_glob_self",
     ]
     DRIVER = "Drivers/Reg.lean"
     QUICK_CASES = 1500
